@@ -173,11 +173,16 @@ def fontinfo_conv():
     # robofab lib keys removed, hint-data field mapping (upconversion.rs)
     up = open(os.path.join(REPO, "src", "upconversion.rs")).read()
     removed = re.findall(r'lib\.remove\("(org\.robofab\.[^"]+)"\);', up)
-    hint = re.findall(r"font_info\.(\w+) =\s*(?:Some\()?\s*(?:ps_hinting_data\.)?(\w+)", up)
-    hint_rows = []
-    for field, srcname in hint:
-        if field in keyof:
-            hint_rows.append((camel(srcname), keyof[field]))
+    # the hint assignments: the statement-by-statement parse of tools/extract_robofab_conv.py (independent of the
+    # name of the binder and of the order of the statements); an unknown statement is an anchor failure
+    import extract_robofab_conv
+    try:
+        parsed = extract_robofab_conv.parse(REPO)
+    except Exception as e:
+        raise Anchor("robofab: %s" % e)
+    if parsed.seq_error is not None:
+        raise Anchor("robofab: %s" % parsed.seq_error)
+    hint_rows = [(entry, attr) for entry, attr, _ in parsed.hint_rows]
     if len(removed) < 1 or len(hint_rows) < 10:
         raise Anchor("robofab")
 
